@@ -32,6 +32,8 @@ type Env struct {
 	paramNames map[string]bool
 	inLoopInv  bool
 	goal       bool
+	noQuant    bool // position of mixed polarity (operand of ==, iff, condition of ite): quantifiers are refused
+	neg        bool // inside an odd number of negations / implication antecedents (flips how quantifiers are treated)
 	extraCands map[string][]Term
 	siteBlock  *ssa.BasicBlock
 	siteInstr  ssa.Instruction
@@ -141,7 +143,13 @@ func (env *Env) trans(e ast.Expr) (tv, error) {
 	case *ast.Ident:
 		return env.ident(x)
 	case *ast.UnaryExpr:
-		v, err := env.trans(x.X)
+		sub := env
+		if x.Op == token.NOT {
+			e2 := *env
+			e2.neg = !env.neg
+			sub = &e2
+		}
+		v, err := sub.trans(x.X)
 		if err != nil {
 			return tv{}, err
 		}
@@ -152,6 +160,11 @@ func (env *Env) trans(e ast.Expr) (tv, error) {
 			return tv{t: app(v.t.Sort, "-", v.t), typ: v.typ}, nil
 		}
 	case *ast.BinaryExpr:
+		if x.Op == token.EQL || x.Op == token.NEQ {
+			e2 := *env
+			e2.noQuant = true
+			env = &e2
+		}
 		a, err := env.trans(x.X)
 		if err != nil {
 			return tv{}, err
@@ -720,6 +733,9 @@ func (env *Env) call(x *ast.CallExpr) (tv, error) {
 		if len(x.Args) != 3 {
 			return tv{}, env.errf(x, "forall(var, Type, body)")
 		}
+		if env.noQuant {
+			return tv{}, env.errf(x, "forall in a position of mixed polarity (operand of ==, iff or condition of ite)")
+		}
 		vid, ok := x.Args[0].(*ast.Ident)
 		if !ok {
 			return tv{}, env.errf(x, "forall: first argument must be an identifier")
@@ -738,26 +754,53 @@ func (env *Env) call(x *ast.CallExpr) (tv, error) {
 			e2.vars[vid.Name] = tv{t: v, typ: t}
 			return e2.trans(x.Args[2])
 		}
-		if env.goal {
-			sk := ex.skolemFor(types.ExprString(x), sort)
+		if env.goal && !env.neg {
+			sk := ex.skolemFor(types.ExprString(x), sort, t)
 			return bind(sk)
 		}
+		if !env.goal && env.neg {
+			// a universally quantified ANTECEDENT of an assumption: (forall k. A(k)) ==> P is  exists k. !A(k)  or P ;
+			// the witness is a fresh constant of this occurrence
+			return bind(sc.freshConst("wit", sort))
+		}
+		// assumption in positive position, or antecedent of a goal: instantiate at the candidate terms
 		var conj []Term
-		for _, c := range ex.instCands[sort] {
+		class := candClass(sort, t)
+		cands := ex.instCands[class]
+		if class == "Int#idx" {
+			// index-like variables: also 0 and the neighbours of the goal's skolem constants (shifted positions after insert / remove)
+			cands = append([]Term{intLit(0)}, cands...)
+			for _, c := range ex.instCands[class] {
+				if strings.HasPrefix(c.S, "sk!") || strings.HasPrefix(c.S, "|sk") {
+					cands = append(cands, app(SInt, "+", c, intLit(1)), app(SInt, "-", c, intLit(1)))
+				}
+			}
+		}
+		for _, c := range cands {
 			r, err := bind(c)
 			if err != nil {
 				return tv{}, err
 			}
 			conj = append(conj, r.t)
 		}
-		for _, c := range env.extraCands[sort] {
+		for _, c := range env.extraCands[class] {
 			r, err := bind(c)
 			if err != nil {
 				return tv{}, err
 			}
 			conj = append(conj, r.t)
 		}
-		return tv{t: and(conj...)}, nil
+		// marked conjunction of instances (filtered per goal at query time, see filterInstances)
+		sc.declare("@q", SBool)
+		if !sc.qMarked {
+			sc.qMarked = true
+			sc.axiom(Term{"|@q|", SBool})
+		}
+		parts := []string{}
+		for _, c := range conj {
+			parts = append(parts, c.S)
+		}
+		return tv{t: Term{instMarker + strings.Join(parts, " ") + " true)", SBool}}, nil
 	case "upd":
 		// upd(m, k, v): ghost map update
 		m, err := argv(0)
@@ -779,7 +822,9 @@ func (env *Env) call(x *ast.CallExpr) (tv, error) {
 		e2.inLoopInv = false
 		return e2.trans(x.Args[0])
 	case "implies":
-		a, err := argv(0)
+		eneg := *env
+		eneg.neg = !env.neg
+		a, err := eneg.trans(x.Args[0])
 		if err != nil {
 			return tv{}, err
 		}
@@ -789,6 +834,11 @@ func (env *Env) call(x *ast.CallExpr) (tv, error) {
 		}
 		return tv{t: implies(a.t, b.t)}, nil
 	case "iff":
+		{
+			e2 := *env
+			e2.noQuant = true
+			env = &e2
+		}
 		a, err := argv(0)
 		if err != nil {
 			return tv{}, err
